@@ -7,20 +7,18 @@ M = [
  ("c05-call-error-not-wrapped", "C05", "compiler.go", 'return nil, fmt.Errorf("could not call %s function: %w", node.Function, e)', 'return nil, fmt.Errorf("could not call %s function: %v", node.Function, e)'),
  ("c05-line-prefix-not-wrapped", "C05", "compiler.go", 'return "", fmt.Errorf("line %d: %w", s.T().LineNumber, err)', 'return "", fmt.Errorf("line %d: %v", s.T().LineNumber, err)'),
  ("c05-if-swallows-any-error", "C05", "compiler.go", '''	con, err := c.evalExpression(node.Condition)
-	if err != nil {
-		if _, ok := err.(*ErrUnknownIdentifier); !ok {
-			return nil, err
-		}
+	if err != nil && !c.tolerated(err, stmt) {
+		return nil, err
 	}
 ''', '''	con, _ := c.evalExpression(node.Condition)
+	_ = stmt
 '''),
  ("c05-not-swallows-any-error", "C05", "compiler.go", '''	res, err := c.evalExpression(node.Right)
-	if err != nil {
-		if _, ok := err.(*ErrUnknownIdentifier); !ok {
-			return nil, err
-		}
+	if err != nil && !c.tolerated(err, stmt) {
+		return nil, err
 	}
 ''', '''	res, _ := c.evalExpression(node.Right)
+	_ = stmt
 '''),
  ("c05-array-literal-drops-error", "C05", "compiler.go", '''		i, err := c.evalExpression(e)
 		if err != nil {
